@@ -1,0 +1,66 @@
+//go:build verif
+
+package tree
+
+import "github.com/benoitkugler/webrender/css/selector"
+
+// Contracts for the deductive verifier in /verif (build tag verif: not compiled
+// into normal builds). Oracle: CSS Cascade 4 §6 (origin and importance, specificity,
+// order of appearance) as stated in property C03.
+
+var _ = selector.Specificity{}
+
+// user agent < user < author < author !important < user !important
+//@ func declarationPrecedence
+//@   props C03
+//@   nopanic
+//@   ensures origin == "user agent" ==> result == 1
+//@   ensures origin == "user" && !importance ==> result == 2
+//@   ensures origin == "author" && !importance ==> result == 3
+//@   ensures origin == "author" && importance ==> result == 4
+//@   ensures origin == "user" && importance ==> result == 5
+//@   ensures result >= 1
+
+//@ func (weight).isNone
+//@   props C03
+//@   nopanic
+//@   ensures result == (w.precedence == 0 && w.specificity[0] == 0 && w.specificity[1] == 0 && w.specificity[2] == 0)
+
+// vLexLE: (precedence, specificity) of a is lexicographically <= that of b
+func vLexLE(a, b weight) bool {
+	if a.precedence != b.precedence {
+		return a.precedence < b.precedence
+	}
+	for i := 0; i < 3; i++ {
+		if a.specificity[i] != b.specificity[i] {
+			return a.specificity[i] < b.specificity[i]
+		}
+	}
+	return true
+}
+
+// Less is the non-strict order "w loses to or ties with other": on a tie the later
+// declaration (other) wins.
+//@ func (weight).Less
+//@   props C03
+//@   nopanic
+//@   let a = w.specificity
+//@   let b = other.specificity
+//@   ensures result == (w.precedence < other.precedence || (w.precedence == other.precedence && (a[0] < b[0] || (a[0] == b[0] && (a[1] < b[1] || (a[1] == b[1] && a[2] <= b[2]))))))
+
+//@ lemma weight-order-is-total-and-transitive
+//@   props C03
+//@   param x weight
+//@   param y weight
+//@   param z weight
+//@   ensures x.Less(y) || y.Less(x)
+//@   ensures x.Less(y) && y.Less(z) ==> x.Less(z)
+//@   ensures x.Less(x)
+
+// A declaration from a style attribute must outrank every selector (property C03):
+// its specificity has to dominate (a, b, c) for all a, b, c >= 0.
+//@ func findStyleAttributes
+//@   props C03
+//@   modifies anything
+//@   call append#1 assert forallI(a, b, c, a >= 0 && b >= 0 && c >= 0 ==> a < specificity[0] || (a == specificity[0] && (b < specificity[1] || (b == specificity[1] && c < specificity[2]))))
+//@   call append#2 assert specificity[0] == 0 && specificity[1] == 0 && specificity[2] == 0
